@@ -14,12 +14,12 @@ from harness import common, gens, recv, oracles
 from harness.common import Stream, hexb
 
 PID = "C14"
-LEAN_MODULES = ["Astm.Proofs.C14", "Astm.State.C14"]
+LEAN_MODULES = ["Astm.Proofs.C14", "Astm.State.C14", "Astm.Surface.C14"]
 THEOREMS = [
     "Astm.C14.server_wiring", "Astm.C14.queue_items_of_connection", "Astm.C14.every_item_has_its_own_file",
     "Astm.C14.ascii_payload_stored_verbatim", "Astm.C14.example_two_connections",
     "Astm.C04.isolation", "Astm.C03.deliveries_eq_spec", "Astm.C16.distinct_files_exact_bytes",
-    "Astm.C14.anchored_code_keeps_no_other_state",
+    "Astm.C14.anchored_code_keeps_no_other_state", "Astm.C14.anchored_code_keeps_its_signatures",
 ]
 RULE = ("runs of the real server process (python -m senaite.astm.server -o <dir> -m <format>) on loopback TCP with 3-8 "
         "concurrent clients and seeded pacing: complete sessions (1-3 messages, some multi-frame), sessions with a "
